@@ -527,6 +527,171 @@ def rule_r5(chk, F, rid="C10.R5"):
                         fin[0].where())
 
 
+def rule_r6(chk, F, rid="C10.R6"):
+    r = chk.rule(rid, "the baseline stack map records a slot only for a register that has frame storage: a register "
+                      "offset is pushed into the gc-point slot lists only under a zero-size test, and the per-type "
+                      "recorder (add_ref_fields) records a slot at the value's own offset only for types whose size "
+                      "is never zero")
+    c = F.crate("dora_cannon_compiler")
+    dc = F.crate("dora_compiler")
+    cg = CallGraph(F, libs=["dora_cannon_compiler", "dora_compiler"], bins=[])
+    # slot lists = the CannonCodeGen fields whose clones are handed to GcPoint::new
+    slot_fields = set()
+    for pth, mb in c.mir.items():
+        if "CannonCodeGen" not in pth:
+            continue
+        B = cfg.Body(mb)
+        defs = None
+        for x in B.calls:
+            if x.name and x.name.endswith("GcPoint::new"):
+                defs = defs or cfg.simple_defs(B)
+                for a in x.args:
+                    o = cfg.origin(B, a, defs) if a[0] in ("c", "m") else None
+                    if o and o[0] == "call" and o[1]["a"]:
+                        oo = cfg.origin(B, o[1]["a"][0], defs)
+                        if oo[0] == "param" and oo[1] == 1:
+                            slot_fields |= {q for q in oo[2] if q.startswith(".")}
+    if not r.anchor("CannonCodeGen slot lists handed to GcPoint::new", sorted(slot_fields)):
+        return
+    # storage predicates: bool functions that (transitively) consult argument_passing_mode / AotLayout::size
+    size_fns = {q for q in cg.bodies if q.endswith("layout::AotLayout::<'a>::size") or last(q) == "argument_passing_mode"}
+    r.anchor("AotLayout::size / argument_passing_mode", sorted(size_fns))
+
+    def is_storage_pred(name):
+        b = cg.body(name)
+        if b is None or b.local_ty(0) != "bool":
+            return False
+        return bool(cg.reachable_from([name]) & size_fns)
+
+    npush = ndeleg = 0
+    for pth, mb in sorted(c.mir.items()):
+        if "CannonCodeGen" not in pth:
+            continue
+        B = cfg.Body(mb)
+        defs = None
+        for x in B.calls:
+            if not x.name or not x.args:
+                continue
+            defs = defs or cfg.simple_defs(B)
+            o0 = cfg.origin(B, x.args[0], defs) if x.args[0][0] in ("c", "m") else None
+            on_slot = bool(o0 and o0[0] == "param" and o0[1] == 1 and (set(o0[2]) & slot_fields))
+            if not on_slot:
+                # &mut self.<slot list> passed as a later argument = delegation to a per-type recorder
+                for a in x.args[1:]:
+                    oa = cfg.origin(B, a, defs) if a[0] in ("c", "m") else None
+                    if oa and oa[0] == "param" and oa[1] == 1 and (set(oa[2]) & slot_fields) and "&" in oa[2]:
+                        ndeleg += 1
+                        r.instance("%s:delegates-to:%s" % (pth, last(x.name)), sample={"callee": x.name})
+                continue
+            if last(x.name) != "push":
+                continue
+            npush += 1
+            key = "%s:push(%s)" % (pth, ",".join(sorted(set(o0[2]) & slot_fields)))
+            guards = []
+            for sb in range(B.n):
+                t = B.blocks[sb]["t"]
+                if t[0] != "switch" or t[1][0] not in ("c", "m") or not B.dominates(sb, x.block) or sb == x.block:
+                    continue
+                o = cfg.origin(B, t[1], defs)
+                neg = False
+                if o[0] == "un" and o[1] == "Not":
+                    neg = True
+                    o = cfg.origin(B, o[2], defs)
+                if o[0] != "call":
+                    continue
+                nm = cfg.callee_name(cfg.callee_of(o[1]["f"])) or ""
+                if not is_storage_pred(nm):
+                    continue
+                # which edge of the switch leads to the push?
+                edges = [v for (v, tb) in t[2] if tb == x.block or x.block in B.reachable(tb, avoid={sb})]
+                other = t[3] == x.block or x.block in B.reachable(t[3], avoid={sb})
+                if len(edges) + (1 if other else 0) != 1:
+                    continue
+                truth = (other or edges == [1]) != neg
+                guards.append((last(nm), truth))
+            ok = False
+            for nm, truth in guards:
+                zeroish = any(w in nm for w in ("zero", "empty", "unit")) and not nm.startswith(("non", "not_"))
+                if zeroish and not truth:
+                    ok = True
+                elif not zeroish:
+                    ok = True   # unknown polarity: existence only
+                    r.observe("%s: storage predicate `%s` of unknown polarity accepted" % (key, nm))
+            r.instance(key, sample={"guards": guards})
+            if not ok:
+                r.violation(key + ":recorded-without-storage-test",
+                            "a register's frame offset is recorded in the stack map without a dominating zero-size "
+                            "test: a register whose type has no storage (e.g. `ref mut ()`) shares the offset of its "
+                            "neighbour (or fp+0), so every stack map of such a function names a slot pair that is "
+                            "not this register — the collector reads a return address / another value as a pointer",
+                            "%s:%d" % (B.file, x.line))
+    r.floor("direct slot pushes in CannonCodeGen", npush, 1)
+    r.floor("delegations to the per-type recorder", ndeleg, 1)
+    # per-type recorder vs. size table
+    hs = [h for q, h in dc.hir.items() if q.endswith("layout::AotLayout::<'a>::size")]
+    ha = [h for q, h in dc.hir.items() if q.endswith("layout::AotLayout::<'a>::add_ref_fields")]
+    if not (r.anchor("HIR of AotLayout::size", hs) and r.anchor("HIR of AotLayout::add_ref_fields", ha)):
+        return
+
+    def top_match(h):
+        for n in hirq.walk(h["body"]):
+            if n[0] == "match":
+                return n
+        return None
+    ms, ma = top_match(hs[0]), top_match(ha[0])
+    if not (r.anchor("size: match over BytecodeType", ms) and r.anchor("add_ref_fields: match", ma)):
+        return
+
+    def zero_kind(body):
+        b = hirq.strip(body)
+        if hirq.is_node(b) and b[0] == "lit" and b[1] == "int":
+            return "zero" if b[2] == 0 else "nonzero"
+        lits = [n for n in hirq.walk(body) if n[0] == "lit" and n[1] == "int" and n[2] == 0]
+        conds = [n for n in hirq.walk(body) if n[0] in ("if", "match")]
+        # a literal 0 in *result* position of a conditional arm
+        if conds:
+            for n in conds:
+                branches = [n[2], n[3]] if n[0] == "if" else [a[2] for a in n[2]]
+                for br in branches:
+                    bb = hirq.strip(br) if br is not None else None
+                    if hirq.is_node(bb) and bb[0] == "lit" and bb[1] == "int" and bb[2] == 0:
+                        return "maybe-zero"
+            return "derived"
+        return "derived" if not lits else "derived"
+    size_kind = {}
+    for (pat, g, body) in hirq.match_arms(ms):
+        for d in hirq.pat_paths(pat):
+            size_kind[last(d)] = "panic" if hirq.is_panic_body(body) else zero_kind(body)
+    params = [pp[0] for pp in ha[0]["params"]]
+    # the offset parameter: the integer parameter of add_ref_fields
+    off_names = {hirq.local_name(["local", pp[0][1]]) if False else pp[0][1] for pp in ha[0]["params"]
+                 if hirq.is_node(pp[0]) and pp[0][0] == "pbind" and pp[1] in ("i32", "i64", "isize")}
+    rec_kind = {}
+    for (pat, g, body) in hirq.match_arms(ma):
+        kind = "none"
+        for cs in hirq.calls(body):
+            if cs.name == "push" and cs.args:
+                a = hirq.strip(cs.args[0])
+                if hirq.is_node(a) and a[0] == "local" and a[1] in off_names:
+                    kind = "direct"
+                elif kind == "none":
+                    kind = "layout"
+        if hirq.is_panic_body(body):
+            kind = "panic"
+        for d in hirq.pat_paths(pat):
+            rec_kind[last(d)] = kind
+    r.floor("BytecodeType variants in the size table", len(size_kind), 15)
+    r.floor("BytecodeType variants in the recorder", len(rec_kind), 15)
+    for v in sorted(rec_kind):
+        sk, rk = size_kind.get(v), rec_kind[v]
+        r.instance("add_ref_fields:%s" % v, sample={"size": sk, "recorder": rk})
+        if rk == "direct" and sk in ("zero", "maybe-zero", None):
+            r.violation("dora_compiler::layout::AotLayout::add_ref_fields:%s:slot-recorded-for-possibly-unsized-value" % v,
+                        "add_ref_fields records a reference slot at the value's own offset for BytecodeType::%s, but "
+                        "AotLayout::size can return 0 for that type (%s): a register of that type has no storage and "
+                        "the recorded slot belongs to a neighbour" % (v, sk), ha[0]["file"])
+
+
 def direct_calls_in_block(block):
     out = []
     for st in doraq.nodes(block):
@@ -547,6 +712,7 @@ def run(chk, F):
         c10_metadata.run_metadata(chk, F, rid="C10.R3")
     rule_r4(chk, F)
     rule_r5(chk, F)
+    rule_r6(chk, F)
     chk.assumptions += [
         "decides the pairing call → stack map (and the record layouts); that a map names exactly the live "
         "reference slots is value-level liveness and is not decided; disjointness of code ranges is a link-time fact",
